@@ -154,29 +154,49 @@ class C15(Prop):
     id = "C15"
     anchored = ["src/pewlib/process/threshold.py"]
     cases = {"quick": 125, "thorough": 2400}
-    rule = ("arrays of 2..1500 (thorough: ..6000) values in 1-3 dimensions: two values only, sizes 2 and 3, uni-, bi- and "
+    rule = ("arrays of 2..1500 (thorough: ..6000) values in 1-5 dimensions: two values only, sizes 2 and 3, uni-, bi- and "
             "multi-modal normal mixtures, heavy tails (lognormal, Cauchy-like), integer-valued incl. int64 arrays and "
             "values exactly on bin edges (0..256), gapped clusters with empty bins, large offsets, negative values, "
-            "NaNs at 0-60 % incl. first/last position; 12 %: exactly mirror-symmetric data (2..6 value pairs, 4..200 "
+            "NaNs at 0-60 % incl. first/last position; 11 %: exactly mirror-symmetric data (2..6 value pairs, 4..200 "
             "elements, small integers / dyadic fractions, centre- or edge-heavy: tied maxima in two separate runs of cuts); "
-            "6 %: two populations in the last (first) two bins plus a far outlier of mass 1..3, 2^10..2^20 elements, "
-            "run-length encoded (beyond ~2^18 elements the optimum is the last (first) cut; two such 2^20-element cases "
-            "are always run); every case is also run with remove_nan and scaled by a power of "
-            "two. non-trivial = every case with >= 2 distinct values; distinct by canonical case hash")
+            "5 %: two populations in the last (first) two bins plus a far outlier of mass 1..3, 2^10..2^20 elements, "
+            "run-length encoded; 2.5 % (+ 4 always): MORE THAN 2^21 ELEMENTS (thorough: up to 2^23 + 7; 1500 x 1500, "
+            "1449 x 1449, 2^21 + 1, 1774 x 1774, 128 x 128 x 129, ...), pattern encoded (tiles = pattern x repetitions): the "
+            "value depends on the flat index - alternating by parity, period 2..16 / 840 with the extreme values at one "
+            "residue only, 1..25 bright pixels at indices of one residue class, a tiled 255..1024-value bimodal sample, "
+            "sorted blocks with the extremes in a short tail, NaN runs; 6 %: EXTREME SCALES, ordinary data times m * 2^K "
+            "(1 <= m < 2, |K| = 200..1070, largest magnitude below 2^1023, subnormal values); 1 % (+ 2 always): the top "
+            "binade (known finding); 5 %: exactly two or three distinct values with populations up to 1 : 10^6, two values "
+            "1..10^6 float steps apart, boolean images; then for every case: a narrower or byte-swapped dtype that holds "
+            "the values (uint8 .. uint64, int8 .. int32, '>i4', '>f8', bool), unit axes / a split last axis (4-5 "
+            "dimensions, 12 %), a memory layout (30 %: Fortran, strided, negative stride, transposed, read-only, offset "
+            "view), remove_nan passed positionally (30 %).  Every case: otsu(x without NaN), otsu(x, remove_nan), the same "
+            "values in a fresh array (second call), that array multiplied by a power of two IN PLACE and handed over "
+            "again.  non-trivial = every case with >= 2 distinct values; distinct by canonical case hash")
     trusted = [
         "np.histogram(x, bins=256) (uniform bins between min and max, last bin closed) and np.argmax (first maximum) "
         "are external; the histogram NumPy returned is the input of the criterion check, and is itself compared with "
-        "the exact binning model when the array has at most 6000 elements (larger: `binning-model-skipped:large`) and no "
-        "value lies within 1e-9 bin widths (plus 8 ulps of the larger end point) of an edge",
-        "multiplying float data by a power of two is exact (no overflow/underflow in the generated range), which is "
-        "where `scale_invariant` (exact arithmetic, every c > 0) transfers to the float computation bit for bit",
+        "the binary64 binning model (counts and edge bits) for every array whose values or pattern positions number at "
+        "most 6000",
+        "IEEE-754 binary64 arithmetic is correctly rounded: every operation returns the double nearest to the exact "
+        "result, so |fl(z) - z| <= 2^-53 |z| + 2^-1075 - the hypothesis of `float_criterion_within_budget`; Lean's `Float` "
+        "operations (run natively by the driver) are those operations; np.ldexp by the frexp exponent is exact "
+        "(evaluated per case: `scaled_centres_exact`)",
+        "multiplying float data by a power of two is exact and NumPy's edges of the scaled data are the scaled edges "
+        "(evaluated per case; otherwise the scaling clause is not judged)",
     ]
     assumptions = [
         "'attains the maximum up to rounding': the cut of the returned centre must reach the exact maximum of the "
-        "criterion within relative 1e-9 + 2048*eps*max|edge|/|mu1-mu2| (accumulated rounding of the cumulative means)",
+        "criterion within BUDGET_SLACK = 2 times the proved rounding budgets of the two cuts (budget of a cut = bound on "
+        "|binary64 criterion - exact criterion| for the code's operation sequence, `critListB` with u = 2^-53, "
+        "eta = 2^-1075; about 5e-14 of the maximum for ordinary data, offset/spread * 5e-14 * ... for data on an offset)",
         "arrays whose 257 float edges are not strictly increasing, or for which np.histogram refuses 256 bins "
-        "('Too many bins for data range', e.g. [1+2eps, 1+eps]: otsu raises ValueError there), have a range below "
-        "float resolution and are undetermined",
+        "('Too many bins for data range', e.g. [1+2eps, 1+eps], subnormal data with a range below 256 steps, ranges "
+        "beyond the float maximum: otsu raises ValueError there), are undetermined",
+        "the power-of-two clause is judged when np.histogram's edges of the scaled data are the scaled edges and every "
+        "bin centre before and after scaling is a double (midpoints of subnormal edges may not be)",
+        "data whose larger end is >= 2^1023 in magnitude: pewlib's bin centres overflow (known finding "
+        "C15-top-binade-centres)",
     ]
 
     # ------------------------------------------------------------------ generation
@@ -781,16 +801,22 @@ class C15(Prop):
         # NaN removal requested on the data as given (positionally or by keyword)
         t_rm = run_otsu(x, True) if case.get("positional") else run_otsu(x, remove_nan=True)
         k = case["scale_exp"]
+        # a history on one array object: the same image in a fresh array (second call), then that array multiplied by
+        # 2^k IN PLACE and handed over again (a result that depends on earlier calls or on the identity of the object
+        # is judged as well)
         with np.errstate(all="ignore"):
             if isfloat:
-                scaled = np.ldexp(arg, k).astype(arg.dtype)
+                scaled = np.array(arg, dtype=arg.dtype.newbyteorder("="), order="C", copy=True)
             elif k >= 0 and max(abs(lo), abs(hi)) * 2.0 ** k < 2.0 ** 62:
-                scaled = arg.astype(np.int64) * (2 ** k)
+                scaled = arg.astype(np.int64, order="C", copy=True)
             else:
-                scaled = np.ldexp(arg.astype(np.float64), k)
+                scaled = arg.astype(np.float64, order="C", copy=True)
+            t2 = run_otsu(scaled)
+            if scaled.dtype.kind == "f":
+                np.ldexp(scaled, k, out=scaled)
+            else:
+                scaled *= 2 ** k
         t_sc = run_otsu(scaled)
-        # the same image once more, after other calls (a result that depends on earlier calls is judged as well)
-        t2 = run_otsu(arg)
         impl = {"threshold": t, "threshold_remove_nan": t_rm, "threshold_scaled": t_sc, "threshold_second_call": t2}
         # --- Lean: mechanism (NaN-carrying, rescaled centres) + brute-force specification on NumPy's histogram
         rep = ctx.driver.call("c15.hist", hist=[int(v) for v in hist], edges=[core.rat(float(v)) for v in edges],
